@@ -1,15 +1,21 @@
 import Fpdec.Gen.Sites
 import Fpdec.Model.Pinned
 
-/-! Site ties for C16: the flavour skeleton of each anchor file, as regenerated from /repo on this run,
-equals the skeleton the model was written against. -/
+/-! Site ties for C16 (written by tools/mksites.py): the flavour skeleton of every source file the property's operations
+execute, as regenerated from /repo on this run, equals the skeleton the model was written against. -/
 
 namespace Fpdec.Props.C16
 
 theorem tie_sites_fpdec_core_src_lib : Gen.sites_fpdec_core_src_lib = Pinned.sites_fpdec_core_src_lib := by decide +kernel
-theorem tie_sites_fpdec_core_src_rounding : Gen.sites_fpdec_core_src_rounding = Pinned.sites_fpdec_core_src_rounding := by decide +kernel
-theorem tie_sites_src_binops_mul_rounded : Gen.sites_src_binops_mul_rounded = Pinned.sites_src_binops_mul_rounded := by decide +kernel
-theorem tie_sites_src_binops_div_rounded : Gen.sites_src_binops_div_rounded = Pinned.sites_src_binops_div_rounded := by decide +kernel
 theorem tie_sites_fpdec_core_src_powers_of_ten : Gen.sites_fpdec_core_src_powers_of_ten = Pinned.sites_fpdec_core_src_powers_of_ten := by decide +kernel
+theorem tie_sites_fpdec_core_src_rounding : Gen.sites_fpdec_core_src_rounding = Pinned.sites_fpdec_core_src_rounding := by decide +kernel
+theorem tie_sites_src_lib : Gen.sites_src_lib = Pinned.sites_src_lib := by decide +kernel
+theorem tie_sites_src_binops_mul : Gen.sites_src_binops_mul = Pinned.sites_src_binops_mul := by decide +kernel
+theorem tie_sites_src_binops_checked_mul : Gen.sites_src_binops_checked_mul = Pinned.sites_src_binops_checked_mul := by decide +kernel
+theorem tie_sites_src_binops_mul_rounded : Gen.sites_src_binops_mul_rounded = Pinned.sites_src_binops_mul_rounded := by decide +kernel
+theorem tie_sites_src_binops_div : Gen.sites_src_binops_div = Pinned.sites_src_binops_div := by decide +kernel
+theorem tie_sites_src_binops_checked_div : Gen.sites_src_binops_checked_div = Pinned.sites_src_binops_checked_div := by decide +kernel
+theorem tie_sites_src_binops_div_rounded : Gen.sites_src_binops_div_rounded = Pinned.sites_src_binops_div_rounded := by decide +kernel
+theorem tie_sites_src_quantize : Gen.sites_src_quantize = Pinned.sites_src_quantize := by decide +kernel
 
 end Fpdec.Props.C16
